@@ -34,9 +34,15 @@ Gen/HasPatcher.vos Gen/HasPatcher.vok Gen/HasPatcher.required_vos: Gen/HasPatche
 Gen/Contracts.vo Gen/Contracts.glob Gen/Contracts.v.beautified Gen/Contracts.required_vo: Gen/Contracts.v Core/Base.vo Core/Prog.vo Py/Sig.vo Sem/Interp.vo Sem/Model.vo Gen/Validators.vo Gen/HasPatcher.vo
 Gen/Contracts.vio: Gen/Contracts.v Core/Base.vio Core/Prog.vio Py/Sig.vio Sem/Interp.vio Sem/Model.vio Gen/Validators.vio Gen/HasPatcher.vio
 Gen/Contracts.vos Gen/Contracts.vok Gen/Contracts.required_vos: Gen/Contracts.v Core/Base.vos Core/Prog.vos Py/Sig.vos Sem/Interp.vos Sem/Model.vos Gen/Validators.vos Gen/HasPatcher.vos
+Gen/Rules.vo Gen/Rules.glob Gen/Rules.v.beautified Gen/Rules.required_vo: Gen/Rules.v Core/Base.vo Sem/Model.vo Gen/HasPatcher.vo
+Gen/Rules.vio: Gen/Rules.v Core/Base.vio Sem/Model.vio Gen/HasPatcher.vio
+Gen/Rules.vos Gen/Rules.vok Gen/Rules.required_vos: Gen/Rules.v Core/Base.vos Sem/Model.vos Gen/HasPatcher.vos
 Sem/Scenario.vo Sem/Scenario.glob Sem/Scenario.v.beautified Sem/Scenario.required_vo: Sem/Scenario.v Core/Base.vo Core/Prog.vo Py/Sig.vo Sem/Interp.vo Sem/InterpFacts.vo Sem/Model.vo Sem/Show.vo Gen/State.vo Sem/ScnSwitch.vo Gen/Validators.vo Gen/HasPatcher.vo Gen/Contracts.vo
 Sem/Scenario.vio: Sem/Scenario.v Core/Base.vio Core/Prog.vio Py/Sig.vio Sem/Interp.vio Sem/InterpFacts.vio Sem/Model.vio Sem/Show.vio Gen/State.vio Sem/ScnSwitch.vio Gen/Validators.vio Gen/HasPatcher.vio Gen/Contracts.vio
 Sem/Scenario.vos Sem/Scenario.vok Sem/Scenario.required_vos: Sem/Scenario.v Core/Base.vos Core/Prog.vos Py/Sig.vos Sem/Interp.vos Sem/InterpFacts.vos Sem/Model.vos Sem/Show.vos Gen/State.vos Sem/ScnSwitch.vos Gen/Validators.vos Gen/HasPatcher.vos Gen/Contracts.vos
+Sem/ScnMarkers.vo Sem/ScnMarkers.glob Sem/ScnMarkers.v.beautified Sem/ScnMarkers.required_vo: Sem/ScnMarkers.v Core/Base.vo Sem/Model.vo Sem/Show.vo Gen/HasPatcher.vo Gen/Rules.vo
+Sem/ScnMarkers.vio: Sem/ScnMarkers.v Core/Base.vio Sem/Model.vio Sem/Show.vio Gen/HasPatcher.vio Gen/Rules.vio
+Sem/ScnMarkers.vos Sem/ScnMarkers.vok Sem/ScnMarkers.required_vos: Sem/ScnMarkers.v Core/Base.vos Sem/Model.vos Sem/Show.vos Gen/HasPatcher.vos Gen/Rules.vos
 Sem/ScnSwitch.vo Sem/ScnSwitch.glob Sem/ScnSwitch.v.beautified Sem/ScnSwitch.required_vo: Sem/ScnSwitch.v Core/Base.vo Core/Prog.vo Sem/Interp.vo Sem/Show.vo Gen/State.vo
 Sem/ScnSwitch.vio: Sem/ScnSwitch.v Core/Base.vio Core/Prog.vio Sem/Interp.vio Sem/Show.vio Gen/State.vio
 Sem/ScnSwitch.vos Sem/ScnSwitch.vok Sem/ScnSwitch.required_vos: Sem/ScnSwitch.v Core/Base.vos Core/Prog.vos Sem/Interp.vos Sem/Show.vos Gen/State.vos
@@ -82,3 +88,12 @@ Thm/C08/Frame.vos Thm/C08/Frame.vok Thm/C08/Frame.required_vos: Thm/C08/Frame.v 
 Props/C08.vo Props/C08.glob Props/C08.v.beautified Props/C08.required_vo: Props/C08.v Core/Base.vo Core/Prog.vo Py/Sig.vo Sem/Interp.vo Sem/InterpFacts.vo Sem/Model.vo Gen/Validators.vo Gen/HasPatcher.vo Gen/Contracts.vo Thm/Common/PatchFacts.vo Thm/Common/PatchBracket.vo Thm/C08/FrameCore.vo Thm/C08/Frame.vo
 Props/C08.vio: Props/C08.v Core/Base.vio Core/Prog.vio Py/Sig.vio Sem/Interp.vio Sem/InterpFacts.vio Sem/Model.vio Gen/Validators.vio Gen/HasPatcher.vio Gen/Contracts.vio Thm/Common/PatchFacts.vio Thm/Common/PatchBracket.vio Thm/C08/FrameCore.vio Thm/C08/Frame.vio
 Props/C08.vos Props/C08.vok Props/C08.required_vos: Props/C08.v Core/Base.vos Core/Prog.vos Py/Sig.vos Sem/Interp.vos Sem/InterpFacts.vos Sem/Model.vos Gen/Validators.vos Gen/HasPatcher.vos Gen/Contracts.vos Thm/Common/PatchFacts.vos Thm/Common/PatchBracket.vos Thm/C08/FrameCore.vos Thm/C08/Frame.vos
+Thm/C04/Markers.vo Thm/C04/Markers.glob Thm/C04/Markers.v.beautified Thm/C04/Markers.required_vo: Thm/C04/Markers.v Core/Base.vo Core/Prog.vo Py/Sig.vo Sem/Interp.vo Sem/InterpFacts.vo Sem/Model.vo Gen/HasPatcher.vo Gen/Rules.vo Thm/Common/PatchFacts.vo Thm/Common/PatchBracket.vo
+Thm/C04/Markers.vio: Thm/C04/Markers.v Core/Base.vio Core/Prog.vio Py/Sig.vio Sem/Interp.vio Sem/InterpFacts.vio Sem/Model.vio Gen/HasPatcher.vio Gen/Rules.vio Thm/Common/PatchFacts.vio Thm/Common/PatchBracket.vio
+Thm/C04/Markers.vos Thm/C04/Markers.vok Thm/C04/Markers.required_vos: Thm/C04/Markers.v Core/Base.vos Core/Prog.vos Py/Sig.vos Sem/Interp.vos Sem/InterpFacts.vos Sem/Model.vos Gen/HasPatcher.vos Gen/Rules.vos Thm/Common/PatchFacts.vos Thm/Common/PatchBracket.vos
+Thm/C04/Effects.vo Thm/C04/Effects.glob Thm/C04/Effects.v.beautified Thm/C04/Effects.required_vo: Thm/C04/Effects.v Core/Base.vo Core/Prog.vo Py/Sig.vo Sem/Interp.vo Sem/InterpFacts.vo Sem/Model.vo Gen/HasPatcher.vo Sem/Scenario.vo
+Thm/C04/Effects.vio: Thm/C04/Effects.v Core/Base.vio Core/Prog.vio Py/Sig.vio Sem/Interp.vio Sem/InterpFacts.vio Sem/Model.vio Gen/HasPatcher.vio Sem/Scenario.vio
+Thm/C04/Effects.vos Thm/C04/Effects.vok Thm/C04/Effects.required_vos: Thm/C04/Effects.v Core/Base.vos Core/Prog.vos Py/Sig.vos Sem/Interp.vos Sem/InterpFacts.vos Sem/Model.vos Gen/HasPatcher.vos Sem/Scenario.vos
+Props/C04.vo Props/C04.glob Props/C04.v.beautified Props/C04.required_vo: Props/C04.v Core/Base.vo Core/Prog.vo Py/Sig.vo Sem/Interp.vo Sem/InterpFacts.vo Sem/Model.vo Gen/HasPatcher.vo Gen/Rules.vo Thm/Common/PatchFacts.vo Thm/Common/PatchBracket.vo Sem/Scenario.vo Thm/C04/Markers.vo Thm/C04/Effects.vo
+Props/C04.vio: Props/C04.v Core/Base.vio Core/Prog.vio Py/Sig.vio Sem/Interp.vio Sem/InterpFacts.vio Sem/Model.vio Gen/HasPatcher.vio Gen/Rules.vio Thm/Common/PatchFacts.vio Thm/Common/PatchBracket.vio Sem/Scenario.vio Thm/C04/Markers.vio Thm/C04/Effects.vio
+Props/C04.vos Props/C04.vok Props/C04.required_vos: Props/C04.v Core/Base.vos Core/Prog.vos Py/Sig.vos Sem/Interp.vos Sem/InterpFacts.vos Sem/Model.vos Gen/HasPatcher.vos Gen/Rules.vos Thm/Common/PatchFacts.vos Thm/Common/PatchBracket.vos Sem/Scenario.vos Thm/C04/Markers.vos Thm/C04/Effects.vos
